@@ -88,6 +88,40 @@ func (env *specEnv) structTargets(loc Term, t types.Type, out *[]modTarget) {
 }
 
 // notInTargets: formula over bound variable l saying l is none of the targets of comp.
+// inTargets: location l of component comp is one of the targets (false when none concerns comp).
+func inTargets(ts []modTarget, comp string, l string) Term {
+	var cs []Term
+	for _, t := range ts {
+		if t.comp != comp {
+			continue
+		}
+		if t.elems {
+			cs = append(cs, fmt.Sprintf("(and (is_idx %s) (= (idx_base %s) %s) (not (= %s nil)))", l, l, t.under, t.under))
+		} else {
+			cs = append(cs, fmt.Sprintf("(= %s %s)", l, t.ix))
+		}
+	}
+	if len(cs) == 0 {
+		return "false"
+	}
+	return or(cs...)
+}
+
+// assumeExcept: after a `modifies * except ...` havoc, the excepted cells hold what they held before.
+func (e *Engine) assumeExcept(st *State, pre *State, ts []modTarget) {
+	comps := map[string]bool{}
+	for _, t := range ts {
+		comps[t.comp] = true
+	}
+	for _, c := range sortedKeys(comps) {
+		nw, old := e.get(st, c), e.get(pre, c)
+		if nw == old {
+			continue
+		}
+		e.vc.assumeIf(st.pc, fmt.Sprintf("(forall ((l Loc)) (! (=> %s (= (select %s l) (select %s l))) :pattern ((select %s l))))", inTargets(ts, c, "l"), nw, old, nw))
+	}
+}
+
 func notInTargets(ts []modTarget, comp string, l string) Term {
 	var cs []Term
 	for _, t := range ts {
@@ -144,42 +178,19 @@ func (fr *Frame) applyContract(cx *callCtx, con *Contract) []Term {
 	}
 	// havoc what the callee may modify
 	if con.ModAll {
+		var exc []modTarget
+		if len(con.Except) > 0 {
+			exc = env.resolveModifies(con.Except)
+		}
 		for c := range e.compSort {
 			if !strings.HasPrefix(c, "$") {
 				e.havocComp(cx.st, c)
 			}
 		}
+		e.assumeExcept(cx.st, pre, exc)
 	} else if len(con.Modifies) > 0 {
 		ts := env.resolveModifies(con.Modifies)
-		comps := map[string]bool{}
-		for _, t := range ts {
-			comps[t.comp] = true
-		}
-		for _, c := range sortedKeys(comps) {
-			old := e.get(cx.st, c)
-			var nw Term
-			simple := true
-			for _, t := range ts {
-				if t.comp == c && t.elems {
-					simple = false
-				}
-			}
-			if simple {
-				// new = old with the target cells replaced by arbitrary values
-				chain := old
-				vs := strings.TrimSuffix(strings.TrimPrefix(e.compSort[c], "(Array Loc "), ")")
-				for _, t := range ts {
-					if t.comp == c {
-						chain = sto(chain, t.ix, vc.fresh("hvcell", vs))
-					}
-				}
-				nw = vc.name("hv$"+c, e.compSort[c], chain)
-			} else {
-				nw = vc.fresh("hv$"+c, e.compSort[c])
-				vc.assumeIf(cx.st.pc, fmt.Sprintf("(forall ((l Loc)) (! (=> %s (= (select %s l) (select %s l))) :pattern ((select %s l))))", notInTargets(ts, c, "l"), nw, old, nw))
-			}
-			cx.st.heap[c] = nw
-		}
+		e.havocTargets(cx.st, ts)
 	}
 	na := vc.fresh("alloc", "Int")
 	vc.assume(fmt.Sprintf("(>= %s %s)", na, cx.st.alloc))
@@ -195,12 +206,68 @@ func (fr *Frame) applyContract(cx *callCtx, con *Contract) []Term {
 	env.results = rs
 	env.st = cx.st
 	for _, c := range con.Ensures {
-		vc.assumeIf(cx.st.pc, env.evalBool(c.Expr))
+		if t, ok := env.tryEvalBool(c.Expr); ok {
+			vc.assumeIf(cx.st.pc, t)
+		} else {
+			// clauses about the callee's internal call history (beforecall/atcall/@pattern) mean nothing to a caller
+			vc.warn = append(vc.warn, "ensures clause of "+shortName(con.Key)+" not usable at call sites (refers to the callee's own calls): "+c.Src)
+		}
 	}
 	for _, c := range con.RepInvs {
 		vc.assumeIf(cx.st.pc, env.evalBool(c.Expr))
 	}
 	return rs
+}
+
+// tryEvalBool: evaluate, reporting failure instead of aborting when the clause needs the callee's code context.
+func (env *specEnv) tryEvalBool(ex Expr) (t Term, ok bool) {
+	saveNoname, saveQuant := env.eng.vc.noname, env.quant
+	defer func() {
+		if r := recover(); r != nil {
+			env.eng.vc.noname, env.quant = saveNoname, saveQuant
+			if se, isSpec := r.(specErr); isSpec && strings.Contains(fmt.Sprint(se), "code context") {
+				t, ok = "", false
+				return
+			}
+			panic(r)
+		}
+	}()
+	return env.evalBool(ex), true
+}
+
+// havocTargets replaces the cells named by resolved modifies targets with arbitrary values.
+func (e *Engine) havocTargets(st *State, ts []modTarget) {
+	vc := e.vc
+	comps := map[string]bool{}
+	for _, t := range ts {
+		comps[t.comp] = true
+	}
+	for _, c := range sortedKeys(comps) {
+		old := e.get(st, c)
+		var nw Term
+		simple := true
+		for _, t := range ts {
+			if t.comp == c && t.elems {
+				simple = false
+			}
+		}
+		if simple {
+			// new = old with the target cells replaced by arbitrary values
+			chain := old
+			vs := strings.TrimSuffix(strings.TrimPrefix(e.compSort[c], "(Array Loc "), ")")
+			for _, t := range ts {
+				if t.comp == c {
+					chain = sto(chain, t.ix, vc.fresh("hvcell", vs))
+				}
+			}
+			nw = vc.name("hv$"+c, e.compSort[c], chain)
+		} else {
+			nw = vc.fresh("hv$"+c, e.compSort[c])
+			e.nilMapEmpty(c, nw)
+			vc.assumeIf(st.pc, fmt.Sprintf("(forall ((l Loc)) (! (=> %s (= (select %s l) (select %s l))) :pattern ((select %s l))))", notInTargets(ts, c, "l"), nw, old, nw))
+		}
+		st.heap[c] = nw
+	}
 }
 
 func lastTwo(n string) string {
@@ -475,12 +542,18 @@ func VerifyFunction(p *Program, cs *Contracts, fn *ssa.Function, con *Contract) 
 			vc.assumeLemma(g) // clauses are proved in order; later ones may use earlier ones as lemmas
 			continue
 		}
-		// known finding: the clause is split on the discriminator (evaluated in the entry state)
-		denv := fr.specEnvFor(fr.entry)
-		d := denv.evalBool(split.Disc.Expr)
-		g := perRet(func(env *specEnv) Term { return env.evalBool(c.Expr) })
-		vc.oblige(fr.oblName("post."+id+".outside"), "post", not(d), g, c.Src+"   [outside known finding "+split.ID+"]")
-		vc.obls = append(vc.obls, &Obligation{Name: fr.oblName("post." + id + ".inside"), Kind: "finding", NAsserts: len(vc.asserts), NDecls: len(vc.decls), Guard: and(final.pc, d), Goal: g, Src: c.Src, Finding: split.ID})
+		// known finding: the clause is split on the discriminator (evaluated at each return point; use
+		// old(e) for the entry state). Outside the discriminator the clause is an ordinary obligation;
+		// inside it the obligation is expected to fail and is reported as KNOWN-FINDING while it is listed.
+		gOut := perRet(func(env *specEnv) Term {
+			return implies(not(env.evalBool(split.Disc.Expr)), env.evalBool(c.Expr))
+		})
+		gIn := perRet(func(env *specEnv) Term {
+			return implies(env.evalBool(split.Disc.Expr), env.evalBool(c.Expr))
+		})
+		vc.oblige(fr.oblName("post."+id+".outside"), "post", "true", gOut, c.Src+"   [outside known finding "+split.ID+"]")
+		vc.obls = append(vc.obls, &Obligation{Name: fr.oblName("post." + id + ".inside"), Kind: "finding", NAsserts: len(vc.asserts), NDecls: len(vc.decls), Guard: "true", Goal: gIn, Src: c.Src, Finding: split.ID})
+		vc.assumeLemma(gOut)
 	}
 	for k, c := range con.RepInvs {
 		g := perRet(func(env *specEnv) Term { return env.evalBool(c.Expr) })
@@ -510,6 +583,30 @@ func VerifyFunction(p *Program, cs *Contracts, fn *ssa.Function, con *Contract) 
 				continue
 			}
 			vc.oblige(fr.oblName("frame."+c), "frame", "true", and(cs...), "only the declared locations of "+c+" change")
+		}
+	}
+	if con.ModAll && len(con.Except) > 0 {
+		menv := fr.specEnvFor(fr.entry)
+		ts := menv.resolveModifies(con.Except)
+		comps := map[string]bool{}
+		for _, t := range ts {
+			comps[t.comp] = true
+		}
+		for _, c := range sortedKeys(comps) {
+			init := sym(c + "@0")
+			l := "l!frame"
+			var cs []Term
+			for _, r := range fr.rets {
+				cur := e.get(r.st, c)
+				if cur == init {
+					continue
+				}
+				cs = append(cs, implies(r.st.pc, fmt.Sprintf("(forall ((%s Loc)) (=> %s (= (select %s %s) (select %s %s))))", l, inTargets(ts, c, l), cur, l, init, l)))
+			}
+			if len(cs) == 0 {
+				continue
+			}
+			vc.oblige(fr.oblName("frame.except."+c), "frame", "true", and(cs...), "the excepted locations of "+c+" do not change")
 		}
 	}
 	for _, ss := range con.Sites {
